@@ -7,6 +7,9 @@
 
 use crate::actions::{Action, ActionWrapper};
 use crate::common::error;
+#[cfg(rfsm_verif)]
+use crate::verif_seams::lazy_static;
+#[cfg(not(rfsm_verif))]
 use lazy_static::lazy_static;
 use std::collections::{HashMap, HashSet, VecDeque};
 use std::fmt::{Debug, Display, Formatter};
@@ -15,15 +18,35 @@ use std::ops::DerefMut;
 use std::slice::Iter;
 use std::str::FromStr;
 use std::string::ToString;
+#[cfg(rfsm_verif)]
+use crate::verif_seams::sync::atomic::{AtomicU32, Ordering};
+#[cfg(rfsm_verif)]
+use crate::verif_seams::sync::mpsc::{channel, Receiver, Sender};
+#[cfg(rfsm_verif)]
+use crate::verif_seams::sync::{Arc, Mutex};
+#[cfg(rfsm_verif)]
+use crate::verif_seams::thread::JoinHandle;
+#[cfg(rfsm_verif)]
+use crate::verif_seams::{thread, timer};
+#[cfg(rfsm_verif)]
+use std::fmt;
+#[cfg(not(rfsm_verif))]
 use std::sync::atomic::{AtomicU32, Ordering};
+#[cfg(not(rfsm_verif))]
 use std::sync::mpsc::{channel, Receiver, Sender};
+#[cfg(not(rfsm_verif))]
 use std::sync::{Arc, Mutex};
+#[cfg(not(rfsm_verif))]
 use std::thread::JoinHandle;
+#[cfg(not(rfsm_verif))]
 use std::{fmt, thread};
 
 #[cfg(feature = "Debug")]
 use crate::common::debug;
 
+#[cfg(rfsm_verif)]
+use crate::verif_seams::timer::Guard;
+#[cfg(not(rfsm_verif))]
 use timer::Guard;
 
 #[cfg(feature = "ECMAScriptModel")]
@@ -169,8 +192,12 @@ pub fn start_fsm_with_data_and_finish_mode(
                         }
                     }
                 }
+                #[cfg(rfsm_verif)]
+                crate::verif_seams::probe::session_thread_started(session_id, datamodel.global_s());
                 sm.interpret(datamodel.deref_mut());
             }
+            #[cfg(rfsm_verif)]
+            crate::verif_seams::probe::session_thread_finished(session_id);
             #[cfg(feature = "Debug")]
             debug!("SM finished");
         });
@@ -3496,6 +3523,17 @@ pub fn map_transition_type(ts: &String) -> TransitionType {
 
 pub(crate) static ID_COUNTER: AtomicU32 = AtomicU32::new(1);
 pub(crate) static SESSION_ID_COUNTER: AtomicU32 = AtomicU32::new(1);
+
+/// Verification hook: resets the process-global id counters so that a simulated run is reproducible.
+#[cfg(rfsm_verif)]
+pub fn verif_reset_counters() {
+    PLATFORM_ID_COUNTER.store(1, Ordering::Relaxed);
+    THREAD_ID_COUNTER.store(1, Ordering::Relaxed);
+    ID_COUNTER.store(1, Ordering::Relaxed);
+    SESSION_ID_COUNTER.store(1, Ordering::Relaxed);
+    #[cfg(feature = "xml")]
+    crate::scxml_reader::verif_reset_counters();
+}
 
 pub type TransitionId = u32;
 
